@@ -11,6 +11,8 @@ package manager
 //@ let $p = result field:manager.Reconciler.newPackage
 //@ let $revs = result (v1.PackageRevisionList).GetRevisions
 //@ let $new = result field:manager.Reconciler.newPackageRevision
+//@ let $resolved = result (manager.Revisioner).Revision
+//@ ghost deactivationsPersisted bool = true
 //@ loop range revisions
 //@   invariant [C14:max] 0 <= maxRevision && forall j :: 0 <= j && j < done ==> $revs[j].GetRevision() <= maxRevision
 //@   invariant [C14:oldest] (oldestRevisionIndex == 0 - 1 && oldestRevision == MaxInt64
@@ -19,6 +21,7 @@ package manager
 //@            && $revs[oldestRevisionIndex].GetName() != $p.GetCurrentRevision()
 //@            && forall j :: 0 <= j && j < done && $revs[j].GetName() != $p.GetCurrentRevision() ==> oldestRevision <= $revs[j].GetRevision())
 //@   invariant [C14:pr-current-or-new] pr == $new || pr.GetName() == $p.GetCurrentRevision()
+//@   invariant [C14:deactivations-persisted] deactivationsPersisted
 //@   invariant [C14:others-inactive] forall j :: 0 <= j && j < done && $revs[j].GetName() != $p.GetCurrentRevision()
 //@        ==> $revs[j].GetDesiredState() != "Active"
 //@ site (client.Writer).Delete(_, _, $victim)
@@ -42,8 +45,16 @@ package manager
 //@   witness cur[j<8] = $revs[j].GetName() == $p.GetCurrentRevision()
 //@   witness active[j<8] = $revs[j].GetDesiredState() == "Active"
 //@   assert [C14,C02:controllable] contains($opts, resource.MustBeControllableBy($p.GetUID()))
+//@ site (resource.Applicator).Apply(_, _, $o, $opts...) as Apply-deactivate
+//@   where $o.GetName() != $p.GetCurrentRevision()
+//@   update deactivationsPersisted = deactivationsPersisted && err == nil
+//@ site (v1.Package).SetCurrentIdentifier(_, $id)
+//@   assert [C14:identifier-recorded-with-its-revision] $resolved != "" && $p.GetCurrentRevision() == $resolved && $id == $p.GetSource()
+//@ site (v1.Package).SetCurrentRevision(_, $name)
+//@   assert [C14:current-revision-is-the-resolved-one] $name == $resolved && $resolved != ""
 //@ site (resource.Applicator).Apply(_, _, $o, $opts...) as Apply-current
 //@   where $o.GetName() == $p.GetCurrentRevision()
+//@   assert [C14:deactivations-persisted-first] deactivationsPersisted
 //@   witness n = len($revs)
 //@   witness nolimit = $p.GetRevisionHistoryLimit() == nil
 //@   witness limit = *$p.GetRevisionHistoryLimit()
